@@ -1,18 +1,18 @@
-\* simulation: random behaviours that end, exported as fault schedules (KeepHist)
+\* simulation: random behaviours whose faults are all about get-entries pages (short reads of every length, empty pages, fetch errors) and the restarts that follow a pass failed by an empty page, exported as fault schedules (KeepHist)
 CONSTANTS
   MaxIdx = 6
-  FaultKinds = {"short", "emptyPage", "fetchErr", "quota", "fatal", "rootErr", "sthErr", "consErr", "cancel", "revoke"}
+  FaultKinds = {"short", "emptyPage", "fetchErr", "cancel"}
   KeepHist = TRUE
   SrcSizes = {2, 3, 4}
   Growths = {0, 1, 2}
-  Batches = {1, 2}
+  Batches = {1, 2, 3}
   FetcherCounts = {1, 2}
   SubmitterCounts = {1, 2}
   Modes = {"run", "master"}
   Conts = {TRUE, FALSE}
-  Forks = {TRUE, FALSE}
+  Forks = {FALSE}
   MaxFaults = 3
-  FaultBudgets = {0, 1, 2, 3}
+  FaultBudgets = {1, 2, 3}
   MaxRestarts = 1
 INIT SimInit
 NEXT SimNext
